@@ -23,3 +23,35 @@ pub fn obs(v: &[u32]) -> Vec<Ob> {
 pub fn unobs(v: &[Ob]) -> Vec<u32> {
     v.iter().map(|x| x.0).collect()
 }
+
+// operator overloads of the Var interface: result type = type of the left operand
+use open_hypergraphs::lax::var::*;
+
+macro_rules! binop {
+    ($tr:ident, $f:ident, $code:expr) => {
+        impl $tr<Ob, Op> for Op {
+            fn $f(lhs: Ob, _rhs: Ob) -> (Ob, Op) {
+                (lhs, Op($code))
+            }
+        }
+    };
+}
+binop!(HasAdd, add, 0);
+binop!(HasSub, sub, 1);
+binop!(HasMul, mul, 2);
+binop!(HasBitXor, bitxor, 4);
+binop!(HasBitAnd, bitand, 5);
+binop!(HasBitOr, bitor, 12);
+binop!(HasShl, shl, 13);
+binop!(HasShr, shr, 14);
+binop!(HasDiv, div, 15);
+impl HasNeg<Ob, Op> for Op {
+    fn neg(t: Ob) -> (Ob, Op) {
+        (t, Op(3))
+    }
+}
+impl HasNot<Ob, Op> for Op {
+    fn not(t: Ob) -> (Ob, Op) {
+        (t, Op(6))
+    }
+}
